@@ -57,6 +57,9 @@ var pool = []string{
 	"A", "A 1 2 getinterval", "B", "[]",
 	// dictionaries
 	"D", "E", "D", // (D twice: second reference to the same dictionary)
+	// distinct one-entry dictionaries whose keys are the names an implementation
+	// might use as probes ("0", "1", …): equal length, different identity
+	"<< /a 1 >>", "<< /0 2 >>", "<< /1 2 >>",
 	// procedures, mark
 	"/P load", "/Q load", "{}", "mark",
 	// the interpreter's own shared-looking objects as operands (they are per
@@ -303,6 +306,7 @@ func boundaryFamily(budget time.Duration) mc.Family {
 
 var startStates = []string{
 	"",
+	"/x 2 def /n 3 def 2 dict begin", // names defined below an empty current dictionary
 	"/n 1 array 0 get def 2 dict begin /x 5 def /n 7 def 1 dict begin /x 1 array 0 get def", // null values that shadow / are shadowed
 	"1 2 3",
 	"mark 1 (ab)",
@@ -324,6 +328,8 @@ var macroOps = []string{
 	"begin", "end", "def", "load", "known", "where", "currentdict", "userdict",
 	// a second name, executed names (values found through the dictionary stack)
 	"/n", "x", "n",
+	// a name rebound without def, begin or end between two look-ups
+	"currentdict /x 9 put", "userdict /n 5 put", "<< /x 3 >> currentdict copy pop",
 }
 
 func canonical(m *psmodel.M) []byte {
